@@ -269,15 +269,16 @@ func (c *compiler) assembleLine(in sourceLine) (Instruction, error) {
 func (c *compiler) compile() (WarriorData, error) {
 	c.loadSymbols()
 
-	err := c.evaluateAssertions()
-	if err != nil {
-		return WarriorData{}, err
-	}
-
+	// check for cycles first: expanding a cyclic definition does not terminate
 	graph := buildReferenceGraph(c.values)
 	cyclic, cyclicKey := graphContainsCycle(graph)
 	if cyclic {
 		return WarriorData{}, fmt.Errorf("expression '%s' is cyclic", cyclicKey)
+	}
+
+	err := c.evaluateAssertions()
+	if err != nil {
+		return WarriorData{}, err
 	}
 
 	resolved, err := expandExpressions(c.values, graph)
